@@ -7,8 +7,8 @@ import (
 	"strings"
 	"time"
 
+	"github.com/hydraide/hydraide/app/core/hydra/swamp/treasure/msgpackpatch"
 	hydrapb "github.com/hydraide/hydraide/sdk/go/hydraidego/v3/hydraidepbgo"
-	"github.com/vmihailenco/msgpack/v5"
 )
 
 const earthRadiusKm = 6371.0
@@ -314,7 +314,7 @@ func evaluateFilterGroupWith(
 // decodeMsgpackToMap decodes MessagePack bytes into a map[string]interface{}.
 func decodeMsgpackToMap(data []byte) (map[string]interface{}, error) {
 	var m map[string]interface{}
-	if err := msgpack.Unmarshal(data, &m); err != nil {
+	if err := msgpackpatch.UnmarshalChecked(data, &m); err != nil {
 		return nil, err
 	}
 	return m, nil
